@@ -219,3 +219,60 @@ Section Parent.
   Fixpoint prun (s : pst) (ops : list pop) : list pobs :=
     match ops with [] => [] | o :: r => let '(s', ob) := pstep s o in ob :: prun s' r end.
 End Parent.
+
+(* ---------- crashes inside the loop (C06) ---------- *)
+Inductive crash_action := CWTE | CKill.
+
+Section Crash.
+  Variable f : list elem -> kw -> Z.
+  Variable mutates : bool.
+
+  (* run only the first [i] instructions of one iteration; [half] = stop inside _send_result,
+     after the counter was incremented and before the message was written *)
+  Fixpoint exec_prefix (sp : list sinstr) (prog : list instr) (i : nat) (half : bool) (s : cst) (fr : frame) : step_res :=
+    match i, prog with
+    | O, ISend :: _ =>
+        if half then
+          match v_result fr with
+          | Some r => Next (send_result (firstn 1 sp) s r) fr
+          | None => Die EStuck s
+          end
+        else Next s fr
+    | O, _ => Next s fr
+    | _, [] => Next s fr
+    | S i', x :: r =>
+        match exec1 f mutates sp x s fr with
+        | Next s' fr' => exec_prefix sp r i' half s' fr'
+        | other => other
+        end
+    end.
+
+  (* k complete iterations, then a crash after i instructions of iteration k+1 *)
+  Fixpoint run_crash (sp : list sinstr) (prog : list instr) (k i : nat) (half : bool) (s : cst) : cst * bool :=
+    match k with
+    | O => match exec_prefix sp prog i half s frame0 with
+           | Next s' _ => (s', true)           (* stopped where the crash lands *)
+           | Brk s' | Wait s' | Die _ s' => (s', false)   (* the loop had already ended / was waiting: nothing to interrupt here *)
+           end
+    | S k' => match exec_iter f mutates sp prog s frame0 with
+              | Next s' _ => run_crash sp prog k' i half s'
+              | Brk s' | Wait s' | Die _ s' => (s', false)
+              end
+    end.
+
+  (* what is on the result stream afterwards: a graceful terminate unwinds through the finally
+     block of _run, i.e. _cleanup; a kill writes nothing more *)
+  Definition stream_after (sp : list sinstr) (prog : list instr) (cp : list cinstr)
+             (d : list Z) (tuple : bool) (dk : list (Z * Z)) (es : list enq) (k i : nat) (half : bool) (a : crash_action) : list msg :=
+    let s0 := mkC (map fresh d) tuple (map (fun p => (fst p, fresh (snd p))) dk) O []
+                  (map Some es) false false in
+    let '(s, _) := run_crash sp prog k i half s0 in
+    match a with
+    | CWTE => outq (cleanup cp s)
+    | CKill => outq s
+    end.
+
+  Definition results_of (l : list msg) : list Z :=
+    flat_map (fun m => match m with MRes _ r => [r] | MEnd _ => [] end) l.
+  Definition ends_of (l : list msg) : nat := length (filter (fun m => match m with MEnd _ => true | _ => false end) l).
+End Crash.
